@@ -280,6 +280,8 @@ CASES += [
     ("cholesky upper", "lambda anp, x: anp.linalg.cholesky(anp.dot(x, x.T) + 4 * anp.eye(3), upper=True)", [((3, 3), "R")], (0,)),
     ("cholesky complex", "lambda anp, x: anp.linalg.cholesky(anp.dot(x, anp.conj(x).T) + 4 * anp.eye(3))", [((3, 3), "C")], (0,)),
     ("cholesky stacked", "lambda anp, x: anp.linalg.cholesky(anp.matmul(x, anp.swapaxes(x, -1, -2)) + 4 * anp.eye(2))", [((2, 2, 2), "R")], (0,)),
+    ("eigh UPLO=u lower-case", "lambda anp, x: anp.linalg.eigh(x, UPLO='u')[0]", [((3, 3), "R")], (0,)),
+    ("eigh UPLO=l lower-case", "lambda anp, x: anp.linalg.eigh(x, UPLO='l')[0]", [((3, 3), "R")], (0,)),
     ("eigh UPLO=U vals", "lambda anp, x: anp.linalg.eigh(x + x.T, UPLO='U')[0]", [((3, 3), "R")], (0,)),
     ("eigh UPLO=U complex vals", "lambda anp, x: anp.linalg.eigh(x + anp.conj(x).T, 'U')[0]", [((3, 3), "C")], (0,)),
     ("eigh complex vals only", "lambda anp, x: anp.linalg.eigh(x + anp.conj(x).T)[0]", [((3, 3), "C")], (0,)),
@@ -314,6 +316,11 @@ CASES += [
     ("cross axis", "lambda anp, x, y: anp.cross(x, y, axis=0)", [((3, 2), "R"), ((3, 2), "R")], (0, 1)),
     ("diag k=1 build", "lambda anp, x: anp.diag(x, k=1)", [((3,), "R")], (0,)),
     ("diag k=-1 extract", "lambda anp, x: anp.diag(x, k=-1)", [((3, 3), "R")], (0,)),
+    ("diagonal 3-D default axes", "lambda anp, x: anp.diagonal(x)", [((2, 3, 2), "R")], (0,)),
+    ("diagonal 3-D axes (0, 2)", "lambda anp, x: anp.diagonal(x, axis1=0, axis2=2)", [((2, 3, 2), "R")], (0,)),
+    ("diagonal 3-D offset default axes", "lambda anp, x: anp.diagonal(x, 1)", [((3, 3, 2), "R")], (0,)),
+    ("pad positional mode edge", "lambda anp, x: anp.pad(x, 1, 'edge')", [((3,), "R")], (0,)),
+    ("pad positional mode wrap", "lambda anp, x: anp.pad(x, (1, 1), 'wrap')", [((3,), "R")], (0,)),
     ("diagonal offset axes", "lambda anp, x: anp.diagonal(x, offset=1, axis1=2, axis2=0)", [((3, 2, 4), "R")], (0,)),
     ("diff prepend", "lambda anp, x: anp.diff(x, prepend=0.5)", [((4,), "R")], (0,)),
     ("diff append", "lambda anp, x, y: anp.diff(x, append=y)", [((4,), "R"), ((2,), "R")], (0,)),   # only x: a differentiated value passed BY KEYWORD is outside the properties (C15: positional)
@@ -606,7 +613,26 @@ def run_one(case):
             exp = (re + 1j * im) if cplx_in else re
             try:
                 vjp, val = make_vjp(f, x)
-                got = onp.asarray(vjp(g))
+                # C10: the cotangent (and the input) are the caller's memory - frozen for the call; a write raises "read-only", a silent change shows in the copy
+                g_arr = g if isinstance(g, onp.ndarray) else None
+                g_copy, x_copy = (g.copy() if g_arr is not None else None), (x.copy() if isinstance(x, onp.ndarray) else None)
+                if g_arr is not None:
+                    g_arr.flags.writeable = False
+                try:
+                    got = onp.asarray(vjp(g))
+                    got2 = onp.asarray(vjp(g))
+                    frozen_ok = (g_arr is None or onp.array_equal(g_arr, g_copy)) and (x_copy is None or onp.array_equal(x, x_copy)) and got.shape == got2.shape and onp.allclose(got, got2, rtol=0, atol=0, equal_nan=True)
+                    fr_det = "cotangent and input unchanged, second application of the vjp function identical"
+                except ValueError as e_:
+                    if "read-only" not in str(e_):
+                        raise
+                    frozen_ok, fr_det = False, f"the rule writes into the caller's cotangent: {str(e_)[:80]}"
+                    g = g_copy.copy()
+                    got = onp.asarray(vjp(g))
+                finally:
+                    if g_arr is not None:
+                        g_arr.flags.writeable = True
+                out.append((f"{label}|arg{a}", "N-frozen", frozen_ok, fr_det if frozen_ok else (fr_det if "writes" in fr_det else "cotangent / input changed by the call, or a second application of the same vjp function differs")))
                 ok_shape = got.shape == xs.shape
                 err = float(onp.max(onp.abs(got.ravel() - exp))) if ok_shape and n_in else 0.0
                 scale = 1 + float(onp.max(onp.abs(exp))) if n_in else 1.0
@@ -747,6 +773,17 @@ def run_astype(rep):
              ("float64 -> float32 (narrow cotangent)", x64, onp.float32, lambda y: anp.sum(anp.sin(y)), onp.cos(x64)),
              ("float64 -> float16 (narrow cotangent)", x64, onp.float16, lambda y: anp.sum(y * y), 2 * x64),
              ("complex128 -> complex64 (narrow cotangent)", z128, onp.complex64, lambda y: anp.real(anp.sum(y * y)), 2 * z128)]   # df = Re(grad * dz)
+    # reductions with an accumulator dtype= : the gradient still lives in the argument's space
+    for nm, mk in (("sum(dtype=float32)", lambda v: anp.sum(v, dtype=onp.float32)), ("x.sum(dtype=float16)", lambda v: v.sum(dtype=onp.float16)), ("sum(axis=0, dtype=float32)", lambda v: anp.sum(anp.sum(anp.reshape(v, (3, 1)), axis=0, dtype=onp.float32))),
+                   ("mean(dtype=float32)", lambda v: anp.mean(v, dtype=onp.float32)), ("prod(dtype=float32)", lambda v: anp.prod(v, dtype=onp.float32)), ("cumsum(dtype=float32)", lambda v: anp.sum(anp.cumsum(v, dtype=onp.float32)))):
+        rep.bounded_case(("dtype option " + nm, "N-astype"))
+        try:
+            g_ = onp.asarray(make_vjp(mk, x64)[0](onp.ones((), dtype=onp.asarray(mk(x64)).dtype)))
+        except Exception as e:
+            rep.note(f"N-astype {nm}: raised {type(e).__name__}: {str(e)[:60]}")
+            continue
+        if not (g_.dtype == x64.dtype and g_.shape == x64.shape):
+            rep.violation("NUM:N-astype", nm, f"{nm} of a float64 array: gradient of dtype {g_.dtype} / shape {g_.shape}; the argument is float64 of shape {x64.shape}", replay=dict(module="contracts.rules_numeric", astype=nm), witness=True)
     for lab, x, dt, post, gexp in cases:
         rep.bounded_case(("astype " + lab, "N-astype"))
         try:
